@@ -92,7 +92,11 @@ def caller_map(rng, W, S):
             pairs.append([wk["keyid"], wk["pub"]])
             M = M + ["<unknown-scheme key>"]
     if kind == "two_ids" and M:
-        pairs.append([OTHER_ID, W.pub(M[0])])
+        # the same key once more under another identifier; its description may even declare that identifier
+        p2 = W.pub(M[0])
+        if rng.random() < 0.6:
+            p2["keyid"] = OTHER_ID
+        pairs.append([OTHER_ID, p2])
         aliased = True
     if kind == "wrong_id" and M:
         pairs[0][0] = "cd" * 32
@@ -198,6 +202,11 @@ def shard(binpath, seed, sh, n):
                 sigs[j]["sig"] = bytes(b).hex()
                 broken = {name}
             desc = "sig:" + kind
+        if mapdesc == "two_ids" and M and wire["signatures"] and rng.random() < 0.7:
+            # ... and the signature list carries a copy of that key's signature under the second identifier
+            own = [s_ for s_ in wire["signatures"] if s_["keyid"] == W.kid(M[0])]
+            if own:
+                wire["signatures"].append(dict(own[0], keyid=OTHER_ID))
         if mapdesc == "plus_unknown_scheme_key" and len(pairs) > len(S):
             wire["signatures"].append({"keyid": pairs[-1][0], "sig": rng.choice(["ab" * 64, "00", wire["signatures"][0]["sig"] if wire["signatures"] else "cd" * 64])})
         # ground truth
